@@ -276,6 +276,11 @@ def cases_hcco(rng, impl, n):
             ei = [e0, e0 * float(rng.uniform(0.97, 1.03)), e0 * float(rng.uniform(0.2, 1.2)), e0 * float(rng.uniform(0.2, 1.2))]
         else:
             ei = gen_hc_ei(rng, cal, tgt) if k % 11 else _fl(10 ** rng.uniform(-2, 2.3, 4))
+        if k % 17 == 9:  # idle and approach flows within 0.1 % of each other, indices decades apart: a slanted segment of slope ~ -1000s
+            fam = 'near_equal_extreme'
+            cal = [cal[0], cal[0] * 1.001, max(cal[2], cal[0] * 1.5), max(cal[3], cal[0] * 2.0)]
+            e0 = float(10 ** rng.uniform(0.5, 2.0))
+            ei = [e0, e0 * 1e-3, e0 * 1e-4, e0 * 1e-4]
         ff = gen_eval_flows(rng, cal, 14)
         h, T, P = gen_ambient(rng, impl, len(ff))
         out.append({'fn': 'hcco', 'family': fam, 'target': tgt, 'cal': cal, 'ei': ei, 'ff': ff, 'T': T, 'P': P,
@@ -651,8 +656,11 @@ def check_hcco(ctx, impl, case, outs):
     slope = u2f(o['slope'])
     extreme = not abs(slope) <= 30.0  # 10**(slope * dlog) may legitimately overflow a double
     if extreme:
-        ctx.count('hcco:extreme_slope_finiteness_not_required')
-    rep.clause('hcco_finite_nonneg', _finite_nonneg(r) or (extreme and bool(np.all(np.nan_to_num(r, nan=-1.0) >= 0))), f'{_fl(r)[:6]}')
+        ctx.count('hcco:extreme_slope')
+    fin = _finite_nonneg(r)
+    only_inf = bool(np.all(np.nan_to_num(np.asarray(r, dtype=float), nan=-1.0, posinf=1.0) >= 0.0))
+    # (an extreme slope may overflow the slanted segment to `inf` below the idle flow: the open finding; NaN / negative values never)
+    rep.clause('hcco_finite_nonneg', fin, f'slope {slope!r}: {_fl(r)[:6]}', finding=F_OVF if (extreme and not fin and only_inf) else None)
     c = case.get('c', 2.0)
     r2 = np.asarray(impl.EI_HCCO(ff, impl.tmv([c * e for e in ei]), impl.tmv(cal), T, P), dtype=float)
     i = _first_bad(r2, c * r, 1e-9)
